@@ -186,6 +186,8 @@ class SysSim(Engine):
     # ---- C19 workload
     def _gen_c19(self, rng, world, task, tier):
         ops = [{"op": "fill", "vseed": rng.randint(0, 10 ** 6)}]
+        if world["stocks"] and rng.chance(0.3):
+            ops.insert(0, {"op": "user_arrays"})
         for _ in range(rng.randint(1, 5)):
             kind = rng.weighted([("to_dict", 3), ("pickle", 2), ("flows_csv", 3), ("stocks_csv", 3), ("to_dfs", 1)])
             if rng.chance(0.3):
@@ -347,6 +349,8 @@ class SysSim(Engine):
         except Exception as e:  # noqa
             sys_, outcome = None, ("raise", exc_class(e))
         st.log.add("outcome", outcome=outcome[0], exc=outcome[1])
+        st.states.add(jhash([world["build"]["path"], world["build"]["sheets"], [f["kind"] for f in faults], outcome[0], world["naming"],
+                             sorted(set(s_["cls"] for s_ in world["stocks"])), sorted(set(d["dtype"] for d in world["dims"]))]))
         st.sig.append((world["build"]["path"], world["build"]["sheets"], tuple(f["kind"] for f in faults), outcome[0],
                        len(world["flows"]), len(world["stocks"]), len(world["params"]), world["naming"]))
         # row faults on a one-row parameter table change nothing: only faults that really altered the input count
@@ -728,6 +732,20 @@ class SysSim(Engine):
     def _c19_step(self, st, op):
         sys_, world = st.sys, st.world
         kind = op["op"]
+        if kind == "user_arrays":
+            # a model author builds the stock objects by hand from own StockArrays (default array name: "unnamed")
+            from flodym import StockArray
+            for s in world["stocks"]:
+                so = sys_.stocks[s["name"]]
+                kw = {"dims": so.dims, "name": so.name, "process": so.process, "time_letter": so.time_letter,
+                      "inflow": StockArray(dims=so.dims), "outflow": StockArray(dims=so.dims, name="my outflow"), "stock": StockArray(dims=so.dims)}
+                if s["lt"] is not None:
+                    kw["lifetime_model"] = so.lifetime_model
+                if s["cls"] == "stockdriven":
+                    kw["solver"] = so.solver
+                sys_.stocks[s["name"]] = type(so)(**kw)
+            self._probe(st, "stocks_with_user_supplied_arrays")
+            return
         if kind == "fill":
             rs = np.random.RandomState(op["vseed"] % 2 ** 31)
             k = 0
@@ -750,6 +768,7 @@ class SysSim(Engine):
         last[kind] = target
         st.last_target = last
         st.log.add("outcome", outcome=out[0], exc=out[1], fired=sorted(fired))
+        st.states.add(jhash([kind, op.get("type") if kind == "to_dict" else None, op.get("dir"), bool(op.get("reuse")), tags["fault"], sorted(fired), out[0]]))
         st.sig.append((kind, op.get("type") if kind == "to_dict" else None, op.get("with_io"), op.get("dir"), tags["fault"],
                        bool(fired), out[0], len(world["flows"]), len(world["stocks"]), tags["zero_d"]))
         # E1 the system is unchanged
